@@ -226,3 +226,21 @@ def l5(h):
                 ok_s = False
     h.check('Schmidt semi-normalisation factors folded into c / cd equal sqrt((2-d)(n-m)!/(n+m)!) (2n-1)!!/(n-m)!',
             h.true() if ok_s else h.false())
+
+
+@harness('C14/L6.constructor-inputs', functions=[FW + 'WMM.__init__', FW + 'WMM.magnetic_field'], max_paths=8,
+         bounds='place (45, 60) and (0, 0); height symbolic in [0, 100] km (the value 0 is a branch of the constructor and is explored)')
+def l6(h):
+    """the constructor hands latitude / longitude / height to the synthesis unchanged, including the values 0"""
+    h.definedness = 'assume'
+    hs = h.real('hgt', 0.0, 100.0)
+    for lat, lon, hgt in ((45.0, 60.0, hs), (0.0, 0.0, hs), (45.0, 60.0, 0.0)):
+        ref = WMM(date=2022.5, latitude=12.0, longitude=34.0)
+        ref.magnetic_field(lat, lon, hgt, date=2022.5)
+        c = WMM(date=2022.5, latitude=lat, longitude=lon, height=hgt)
+        if c.X is None:
+            h.check(f'constructor at ({lat:g}, {lon:g}) computed the elements', h.false())
+            continue
+        tag = 'h' if hgt is hs else '0'
+        h.check(f'constructor at ({lat:g}, {lon:g}, {tag}) == magnetic_field(same place, same height)',
+                h.eq(np.array([c.X, c.Y, c.Z]), np.array([ref.X, ref.Y, ref.Z])))
